@@ -133,12 +133,15 @@ structure Env where
   /-- the exception escaping `irc.feedMsg(m)`, if any (C07: none when `feedMsg` is firewalled
   and the handlers raise only `Exception`s) -/
   feedEscapes : List C05.Msg → C05.Msg → Option String := fun _ _ => none
-  /-- the exception escaping the `takeMsg()` loop of `_sendIfMsgs`, if any -/
+  /-- the exception escaping the take/join/encode stage of `_sendIfMsgs` (`irc.takeMsg()`,
+  `''.join(map(str, msgs))`, `.encode(...)`), if any, given the `str()`s about to be taken -/
   takeEscapes : List Str → Option String := fun _ => none
+  /-- `MalformedIrcMsg` is *not* caught by `drivers.parseMsg` (false since fix 56dc7ac) -/
+  malformedEscapes : Bool := false
 
-/-- no exception escapes the Irc object's `feedMsg` / `takeMsg` -/
+/-- no exception escapes the Irc object's `feedMsg` / `takeMsg`, the encoding, or `parseMsg` -/
 def NoEscape (env : Env) : Prop :=
-  (∀ h m, env.feedEscapes h m = none) ∧ (∀ q, env.takeEscapes q = none)
+  (∀ h m, env.feedEscapes h m = none) ∧ (∀ q, env.takeEscapes q = none) ∧ env.malformedEscapes = false
 
 structure World where
   -- SocketDriver
@@ -231,7 +234,8 @@ def feedLines (env : Env) : List Bytes → World → World
   | l :: ls, w =>
     match parseMsg env.timeOk (decode l) with
     | .empty => feedLines env ls w
-    | .malformed => feedLines env ls w
+    | .malformed =>
+      if env.malformedEscapes then { w with crashed := some "MalformedIrcMsg" } else feedLines env ls w
     | .msg m =>
       match env.feedEscapes w.fed m with
       | some e => { feedMsg env m w with crashed := some e }
